@@ -344,19 +344,6 @@ Definition seg_inv (sg : segment) : Prop :=
   /\ si_enc (sg_info sg) = enc_info (Z.of_N (si_ts (sg_info sg))) (si_id (sg_info sg))
   /\ Forall sentry_inv (sg_entries sg).
 
-Hypothesis info_roundtrip : forall ts id, dec_info (enc_info ts id) = Some (ts, id).
-
-Lemma segment_roundtrip sg : seg_inv sg -> segment_from (segment_to sg) = Ok sg.
-Proof.
-  intros (H1 & H2 & H3 & H4). unfold segment_from_rpc, segment_to_rpc. cbn [rs_info rs_entries].
-  rewrite info_roundtrip. unfold seginfo_from_rpc.
-  assert (((Z.of_N (si_ts (sg_info sg)) <? 0)%Z || (Z.of_N U32_MAX <? Z.of_N (si_ts (sg_info sg)))%Z) = false) as ->
-    by (unfold U32_MAX; lia).
-  assert ((U16_MAX <? si_id (sg_info sg)) = false) as -> by (unfold U16_MAX; lia).
-  cbn [obind]. rewrite (collect_map_roundtrip sentry_from sentry_to_rpc (sg_entries sg) H4). cbn [obind].
-  unfold seginfo_new. rewrite N2Z.id, <- H3. destruct sg as [[ts id enc] es]; reflexivity.
-Qed.
-
 Lemma sentry_from_rpc_inv r e : sentry_from r = Ok e -> sentry_inv e.
 Proof.
   unfold sentry_inv. unfold sentry_from_rpc at 1. destruct r as [[sm|]]; cbn [rae_signed]; [|discriminate].
@@ -388,6 +375,19 @@ Proof.
   unfold U32_MAX in E1. unfold U16_MAX in E2. refine (conj _ (conj _ (conj eq_refl _))); [lia|lia|].
   eapply collect_Forall; [|exact E3]. intros a b Hab. eapply sentry_from_rpc_inv, Hab.
 Qed.
+Hypothesis info_roundtrip : forall ts id, dec_info (enc_info ts id) = Some (ts, id).
+
+Lemma segment_roundtrip sg : seg_inv sg -> segment_from (segment_to sg) = Ok sg.
+Proof.
+  intros (H1 & H2 & H3 & H4). unfold segment_from_rpc, segment_to_rpc. cbn [rs_info rs_entries].
+  rewrite info_roundtrip. unfold seginfo_from_rpc.
+  assert (((Z.of_N (si_ts (sg_info sg)) <? 0)%Z || (Z.of_N U32_MAX <? Z.of_N (si_ts (sg_info sg)))%Z) = false) as ->
+    by (unfold U32_MAX; lia).
+  assert ((U16_MAX <? si_id (sg_info sg)) = false) as -> by (unfold U16_MAX; lia).
+  cbn [obind]. rewrite (collect_map_roundtrip sentry_from sentry_to_rpc (sg_entries sg) H4). cbn [obind].
+  unfold seginfo_new. rewrite N2Z.id, <- H3. destruct sg as [[ts id enc] es]; reflexivity.
+Qed.
+
 End SegCodecProofs.
 
 (** ** signing an entry keeps the representation invariant *)
